@@ -95,6 +95,8 @@ struct Ctx<'a> {
     rollbacks: usize,
     ok_after_rollback: bool,
     pending_rollback: bool,
+    /// The model no longer knows the position (see `judge`): stop without a verdict.
+    desynced: bool,
 }
 
 fn hard_fired(pipe: &SharedPipe) -> (u64, u64) {
@@ -121,7 +123,7 @@ fn class_of(r: &Result<u64, h263_rs::Error>) -> String {
 fn mclass(r: &Result<u64, MErr>) -> String {
     match r {
         Ok(v) => format!("Ok({v:#x})"),
-        Err(MErr::Eof) => "Err(Io(UnexpectedEof))".into(),
+        Err(MErr::Eof) => "Err(EndOfData)".into(),
         Err(MErr::Internal) => "Err(InternalDecoderError)".into(),
     }
 }
@@ -156,6 +158,17 @@ impl<'a> Ctx<'a> {
         if rc == mc {
             return true;
         }
+        if *model == Err(MErr::Internal) {
+            // An invalid request (width larger than the type, broken VLC table) is outside
+            // the statement: any error value is fine (nothing consumed); if the reader
+            // answers Ok the model cannot know what was consumed, so the run ends unjudged.
+            if real.is_err() {
+                return false;
+            }
+            self.st.inc("invalid_request_answered_ok_run_ended");
+            self.desynced = true;
+            return false;
+        }
         if hard {
             if let Err(h263_rs::Error::UnhandledIoError(_)) = real {
                 self.st.inc("io_error_surfaced");
@@ -174,7 +187,7 @@ impl<'a> Ctx<'a> {
     /// now (a propagated failure) — or a violation was found.
     fn run(&mut self, r: &mut Reader, ops: &[Op], propagate: bool, in_look: bool) -> bool {
         for op in ops {
-            if self.violation.is_some() {
+            if self.violation.is_some() || self.desynced {
                 return false;
             }
             self.nops += 1;
@@ -400,7 +413,7 @@ impl<'a> Ctx<'a> {
                 self.st.inc("probe.start_code_none");
             }
             Err(e) => {
-                let is_eof = matches!(e, h263_rs::Error::UnhandledIoError(io) if io.kind() == std::io::ErrorKind::UnexpectedEof);
+                let is_eof = e.is_eof_error();
                 if !is_eof {
                     if hard && matches!(e, h263_rs::Error::UnhandledIoError(_)) {
                         return;
@@ -464,6 +477,7 @@ pub fn exec_reader_plan(plan: &ReaderPlan, st: &mut Stats) -> Option<Violation> 
         rollbacks: 0,
         ok_after_rollback: false,
         pending_rollback: false,
+        desynced: false,
     };
     pipe.lock().unwrap().budget = 1_000_000;
     let r = guarded(|| {
